@@ -15,6 +15,8 @@
 (* Strings are interned by the harness.  cmp lists the components that the *)
 (* configuration makes comparable, det says whether the test case is       *)
 (* deterministic (a test case that kills only child processes is not).     *)
+(* tm = <<M, Per>>: the timeout settings of both executors in the time     *)
+(* units of the model (a "slow" statement sleeps SlowDur units).           *)
 (* kind = "batch" events carry the protocol path observed on the real      *)
 (* executor for one execute_multiple call and the path of the model.       *)
 (*                                                                         *)
@@ -66,7 +68,9 @@ Matches(o, r) ==
   /\ (r.items = {} => o.bt = <<>> /\ o.bf = <<>>)
   /\ (cur.obs = "trace" => {o.at[k][1] + 1 : k \in DOMAIN o.at} = {a[1] : a \in r.atr})
   /\ (cur.obs = "verify" => {<<o.vt[k][1] + 1, Kind(o.vt[k][3])>> : k \in DOMAIN o.vt} = r.vtr)
-Abstract == ExecResult(cur.prog, cur.obs)
+\* tm: the settings of both executors in the time units of the model (M, Per); prog carries the
+\* binding flag of every statement
+Abstract == ExecResult(cur.prog, cur.obs, cur.tm[1], cur.tm[2])
 
 Drift_InprocFollowsModel ==
   At("Drift_InprocFollowsModel") /\ cur.kind # "batch" /\ cur.model => Matches(cur.i, Abstract)
